@@ -211,16 +211,16 @@ fn extract_files_with_metadata(
     options: &RebuildOptions,
     progress_callback: &Option<ProgressCallback>,
 ) -> Result<Vec<(Vec<u8>, FileMetadata)>> {
-    // Get file list, preferring the most complete method
-    let files = if metadata.has_het_bet {
-        archive
-            .list_all_with_hashes()
-            .unwrap_or_else(|_| archive.list().unwrap_or_default())
-    } else {
-        archive
-            .list()
-            .unwrap_or_else(|_| archive.list_all().unwrap_or_default())
-    };
+    // Get file list. Files are read and re-added by name, so the named listing comes first
+    // for every format version; the table enumeration only yields placeholder names that
+    // cannot be read back.
+    let files = archive.list().unwrap_or_else(|_| {
+        if metadata.has_het_bet {
+            archive.list_all_with_hashes().unwrap_or_default()
+        } else {
+            archive.list_all().unwrap_or_default()
+        }
+    });
 
     let mut extracted_files = Vec::new();
     let total_files = files.len();
